@@ -183,12 +183,13 @@ def run(sc, choices=None):
             for a in m.feed(f):
                 if a[0] in ("protocol_error", "unspec"):
                     raise InvalidScenario("illegal stream")
+    if sc.get("prior"):
+        cfg["prior"] = dict(sc["prior"])  # the object was used before: an earlier connection was lost mid-frame / mid-message
+    cfg["no_multithread"] = bool(sc.get("no_multithread"))
+    cfg["write_fail"] = sc.get("write_fail")
     if nbad:
         cfg["continue_after_exc"] = True
         cfg["max_calls"] = len(frames) + 6
-        if sc.get("prior"):
-            cfg["prior"] = dict(sc["prior"])  # the object was used before: an earlier connection was lost mid-frame / mid-message
-        cfg["no_multithread"] = bool(sc.get("no_multithread"))
         out = run_recv(int(sc.get("seed", 1)), stream, cfg, res)
         from ..harness import obs_value
         from ..recvdrv import obs_matches
@@ -249,6 +250,8 @@ def gen(rng):
         sc["prior"] = pr
     if rng.random() < 0.1:
         sc["no_multithread"] = True  # WebSocket(enable_multithread=False): the no-op lock stand-in
+    if rng.random() < 0.08 and not sc.get("sender"):
+        sc["write_fail"] = rng.choice(("EPIPE", "ECONNRESET"))  # every write of the client fails: replies are lost, deliveries are not
     return sc
 
 
